@@ -685,3 +685,153 @@ func streamExec(r *Run, stream []byte, want []*MV, desc string, sc streamCfg) {
 func isParseErr(err error) bool {
 	return err != nil && bytes.HasPrefix([]byte(err.Error()), []byte("parsing input"))
 }
+
+// ---- -race sub-mode of C09: the same streams through the real ParseNDStream with real goroutines ---------------
+
+type planReader struct {
+	data []byte
+	off  int
+	plan []readResult // pre-drawn (n, err) answers; after the plan: everything that is left, then io.EOF
+	k    int
+}
+
+func (p *planReader) Read(b []byte) (int, error) {
+	rest := len(p.data) - p.off
+	if p.k < len(p.plan) {
+		a := p.plan[p.k]
+		p.k++
+		n := a.n
+		if n > len(b) {
+			n = len(b)
+		}
+		if n > rest {
+			n = rest
+		}
+		copy(b, p.data[p.off:p.off+n])
+		p.off += n
+		if a.err != nil {
+			return n, a.err
+		}
+		if n == rest && rest > 0 && p.k >= len(p.plan) {
+			return n, nil
+		}
+		return n, nil
+	}
+	if rest == 0 {
+		return 0, io.EOF
+	}
+	n := rest
+	if n > len(b) {
+		n = len(b)
+	}
+	copy(b, p.data[p.off:p.off+n])
+	p.off += n
+	return n, nil
+}
+
+// RunStreamRace: free-running ParseNDStream (no hook parks) with a pre-drawn read plan, drawn GOMAXPROCS, channel
+// capacities and recycling; the race detector judges the memory, the history oracles judge the result.
+func RunStreamRace(r *Run) {
+	c := r.C
+	kernelSwitching = false
+	defer func() { kernelSwitching = true }()
+	stream, want, desc := genStream(r)
+	procs := []int{1, 2, 4, 8, 16}[c.Intn("gomaxprocs", 5)]
+	capRes := c.Intn("capres", 9)
+	recycle := c.Intn("recycle", 3)
+	frag := c.Intn("frag", fragCount)
+	if len(stream) > 4000 && frag <= fragThree {
+		frag = fragLine + c.Intn("fragbig", 5)
+	}
+	faultAt := -1
+	var faultErr error
+	if c.Intn("fault", 3) == 0 {
+		faultAt = c.Intn("faultat", len(stream)+1)
+		faultErr = &errInjected{2}
+	}
+	// pre-draw the read plan
+	var plan []readResult
+	off := 0
+	for off < len(stream) && len(plan) < 100000 {
+		if faultAt >= 0 && off >= faultAt {
+			break
+		}
+		n := drawFragment(c, frag, stream, off)
+		if faultAt >= 0 && off+n > faultAt {
+			n = faultAt - off
+		}
+		if n <= 0 {
+			break
+		}
+		plan = append(plan, readResult{n, nil})
+		off += n
+	}
+	if faultAt >= 0 {
+		plan = append(plan, readResult{0, faultErr})
+	} else if c.Intn("eofdata", 2) == 1 && len(plan) > 0 {
+		plan[len(plan)-1].err = io.EOF
+	}
+	old := runtime.GOMAXPROCS(procs)
+	defer runtime.GOMAXPROCS(old)
+	res := make(chan simdjson.Stream, capRes)
+	var reuse chan *simdjson.ParsedJson
+	if recycle != 0 {
+		reuse = make(chan *simdjson.ParsedJson, 1+c.Intn("capreuse", 8))
+	}
+	simdjson.ParseNDStream(&planReader{data: stream, plan: plan}, res, reuse)
+	var got []*MV
+	var errs []error
+	k := 0
+	for v := range res {
+		if v.Error != nil {
+			errs = append(errs, v.Error)
+			continue
+		}
+		roots, err := WalkInto(v.Value)
+		if err != nil {
+			walkerFail(r, "W-into", "value delivered by ParseNDStream under -race", err)
+			return
+		}
+		if len(errs) == 0 {
+			got = append(got, roots...)
+		}
+		k++
+		if reuse != nil && (recycle == 1 || k%2 == 0) {
+			select {
+			case reuse <- v.Value:
+			default:
+			}
+		}
+	}
+	r.Res.Evals++
+	r.Res.NonTrivial = len(plan) >= 3 || faultAt >= 0
+	r.Res.Sample["stream"] = desc
+	r.Res.Sample["cfg"] = fmt.Sprintf("race: GOMAXPROCS=%d cap(res)=%d recycle=%d frag=%s fault@%d reads=%d", procs, capRes, recycle, fragNames[frag], faultAt, len(plan))
+	ctx := fmt.Sprintf("[%s; %s]", desc, r.Res.Sample["cfg"])
+	if faultAt < 0 {
+		if len(errs) != 1 || !errors.Is(errs[0], io.EOF) {
+			r.violate("history", "eof-count", fmt.Sprintf("errors delivered: %v, expected exactly one io.EOF %s", errs, ctx))
+			return
+		}
+		if d := DiffRoots(want, got, EqExact); d != "" {
+			r.violate("history", "documents", fmt.Sprintf("delivered documents differ from the stream's documents: %s %s", d, ctx))
+			return
+		}
+	} else {
+		if len(got) > len(want) || DiffRoots(want[:len(got)], got, EqExact) != "" {
+			r.violate("history", "prefix", "documents delivered before the reader error are not a prefix of the stream "+ctx)
+			return
+		}
+		found := false
+		for _, e := range errs {
+			if errors.Is(e, faultErr) {
+				found = true
+			}
+		}
+		if !found {
+			r.violate("history", "reader-error-lost", fmt.Sprintf("reader failed with %q but the errors delivered were %v %s", faultErr, errs, ctx))
+			return
+		}
+	}
+	r.fp.u64(digestRoots(got))
+}
